@@ -11,6 +11,7 @@ package c07
 import (
 	"database/sql"
 	"encoding/json"
+	"errors"
 	"fmt"
 	"os"
 	"sort"
@@ -101,6 +102,18 @@ func (Prop) Gen(r *core.Rand, tier string) interface{} {
 			prog = append(prog, Op{Kind: r.Pick(palette), J: r.Intn(3), X: r.Intn(50)})
 		}
 		c.Tasks = append(c.Tasks, prog)
+	}
+	if c.Prepare && r.Chance(40) {
+		// prepared-statement scenario: the first preparation of a statement text
+		// happens inside some tasks' transactions while other tasks run the same
+		// text outside any transaction
+		for t := range c.Tasks {
+			if t%2 == 0 {
+				c.Tasks[t] = append([]Op{{Kind: "tx", J: 0, X: 1}}, c.Tasks[t]...)
+			} else {
+				c.Tasks[t] = append([]Op{{Kind: "first", J: 0}}, c.Tasks[t]...)
+			}
+		}
 	}
 	if r.Chance(12) {
 		// keeper scenario: some tasks join things with their (soft-deleted) keeper
@@ -331,6 +344,11 @@ func runOp(db *gorm.DB, t int, op Op) string {
 		return out(tx, fmt.Sprint(len(ks)))
 	case "tx", "tx_fail":
 		err := db.Transaction(func(tx *gorm.DB) error {
+			// the same statement text other tasks run outside a transaction ("first")
+			var u0 fam.User
+			if err := tx.First(&u0, id).Error; err != nil && !errors.Is(err, gorm.ErrRecordNotFound) {
+				return err
+			}
 			if err := tx.Create(&fam.Note{ID: id + 70 + uint(op.X), Body: "in-tx", Rank: op.X}).Error; err != nil {
 				return err
 			}
